@@ -1562,6 +1562,12 @@ fn readout(w: &World) -> Result<(), (String, String)> {
 
 pub fn check(c: &StmtCase, ctx: &mut CaseCtx) -> Result<(), Fail> {
     let mut w = World::new();
+    // half of the routers answer repeated read statements from the query cache: a cached answer
+    // must still be the answer of the direct call
+    if c.style & 4 != 0 {
+        w.router.init_cache();
+        ctx.label("router with query cache");
+    }
     let mut returned_rows = 0usize;
     let mut n_ok = 0usize;
     let mut diverged = false;
